@@ -24,40 +24,53 @@ Symbolic per harness: which attributes are read (R) and then assigned (W) throug
 the bits of `_rbits_` / `_wbits_`; the harness also asserts that the resulting masks are exactly R and W), the
 loaded row values, the assigned values, the current row (`C`: exists?, value and NULL flag per column).
 The masks are given as booleans rather than as one int because CrossHair forks per tested bit either way and
-`int & int` on a symbolic int costs 3x more per path.
+`int & int` / `int | int` on a symbolic int goes through z3's int2bv (3x slower per path, or no answer at all).
 
 Reference statement (function `_core`; not a copy of pony's code):
+  S0 the masks after the reads / assignments are exactly R (without the volatile attribute) and W; status 'modified' iff W;
   S1 the UPDATE sets exactly the assigned attributes' columns to the assigned values (argument alignment included);
   S2 its WHERE clause is a conjunction of `col = <param>` / `col IS NULL` terms, the first being the primary key;
   S3 (emission) in an optimistic session and for an object not locked for update: for every attribute in
-     required = (R \\ W) /\\ {a, n, g} there is a term on its column comparing with the value that was READ
+     required = (R minus W) intersected with {a, n, g} there is a term on its column comparing with the value that was READ
      (`IS NULL` when NULL was read); no optimistic terms at all when the session is not optimistic or the object
      was fetched with get_for_update (the property's two exemptions, as the design states them);
   S4 (decision) the harness evaluates that WHERE text, with the arguments that were really sent, over the symbolic
-     current row using SQL semantics (`col = NULL` is never true) and reports rowcount 1 / 0 accordingly.
-     Asserted: row matched  =>  for every attribute in `required`: current value == value read (NULL-aware);
-     and, as a guard against a vacuous always-fail implementation: current row identical to the loaded row => matched;
+     current row using SQL semantics (`col = NULL` is never true, a deleted row matches nothing) and reports
+     rowcount 1 / 0 accordingly.  Asserted: row matched  =>  for every attribute in `required`: current value ==
+     value read (NULL-aware); and, as a guard against a vacuous always-fail implementation: current row identical to
+     the loaded row => matched;
   S5 (outcome, optimistic session) matched <=> no error and exactly one commit(); not matched <=> the session raises
      OptimisticCheckError (UnrepeatableReadError also accepted), commit() is never called and rollback() is.
-`track_step` is the inductive kernel for read/write tracking (K3): from ARBITRARY masks one descriptor read, one
-assignment or one query-read (`EntityMeta._set_rbits`) of a symbolic attribute changes the masks exactly as the rule
-says (read while not yet written -> read bit; volatile never; assignment -> write bit; nothing is ever cleared), so S3's
-`R` really is "every attribute the session read from the object before overwriting it", for any operation order.
+`track_step` is the inductive kernel for read/write tracking (K3): from an arbitrary tracked state (the bits of one
+attribute arbitrary, the bits of all others all clear or all set) one descriptor read, one assignment or one query-read
+(`EntityMeta._set_rbits`, what `_fetch_objects` does for the attributes a query used) changes the masks exactly as the rule
+says (read while not yet written -> read bit; volatile never; assignment -> write bit; nothing else changes, nothing is
+ever cleared), so S3's `R` really is "every attribute the session read from the object before overwriting it", for any
+operation order.
 
 Bounds / restructuring w.r.t. DESIGN.md:
-  * the full product R x W over the six attributes is 2^11 mask states x match/no-match; it is covered in the quick
-    tier by eight harnesses `upd_w0..upd_w7` that differ only in the fixed triple (w_a, w_f, w_x) - a parallelisation
-    device, every harness is symbolic in the other 8 mask bits and all values.  In the quick tier those eight run
-    with the design's row shape (n loaded NULL, g loaded non-NULL, non-NULL assigned values, v not read); the other
-    shapes are symbolic in `upd_nulls` (n, g), `upd_volatile` (v), and in ALL eight under C20_FULL=1 (thorough).
+  * the full product R x W over the six attributes is 2^11 mask states (the volatile attribute has no read bit) x
+    match/no-match; it is covered by sixteen harnesses `upd_w00..upd_w15` that differ only in the fixed bits (w_a, w_f,
+    w_x, w_v) - a parallelisation device; every harness is symbolic in the other mask bits and in all values.  In the
+    quick tier those sixteen run with the design's row shape (v not read, n loaded NULL, g loaded G[7], non-NULL
+    assignments); C20_FULL=1 (thorough) frees "v is read", "n loaded NULL or not" and "g loaded NULL or not".  All NULL shapes of n and g
+    (loaded and assigned) are symbolic in `upd_nulls` over the attributes n, g - whose paths also share a WARM
+    `_update_sql_cache_` (NULL / non-NULL shapes of the same columns must not collide in the statement cache);
+    `upd_volatile` (v, a), `upd_float` (f, a; symbolic finite floats) cover the remaining kinds.
+  * K1 sets the masks through the descriptors (read R, then assign W) instead of writing `_rbits_`/`_wbits_` directly;
+    other operation orders are covered by `track_step`.
   * reference primary keys are concrete (7 loaded, 8 assigned): a symbolic key would be realised by the identity
-    map's dict lookup.  The current row's g column is a symbolic int.
+    map's dict lookup.  The current row's g column is a symbolic int.  Loaded / assigned ints: any 32-bit value.
   * K2 uses the SQL text + arguments that reached the cursor instead of evaluating the AST with engine/symsql
     (the WHERE clause is a conjunction of two term shapes; anything else fails the harness).
   * PostgreSQL: `upd_pg` runs the same scenario on the real PGProvider / PG builder (pyformat parameters) over
     the attributes a, n, g.  No server: the decision step is the harness' SQL-semantics evaluation in both cases.
-Outside: collections, composite keys, second UPDATE of the same object after an intermediate flush, deletes,
-the "commits none of its OTHER changes" part (rides on C17; here: commit() is not called at all).
+  * `upd_for_update` (optimistic and non-optimistic session) and `upd_pessimistic`: a, n, g read; a, x, g assigned.
+Stubs: pony.orm.core.time (clock); pony.orm.core.deduplicate (dict-based interning of database values, an identity-
+preserving optimisation whose dict lookup would realise symbolic values) -> identity; Database._ast2sql runs outside the
+CrossHair tracer (its input holds column names and converter objects only).
+Outside: collections, composite keys, a second UPDATE of the same object after an intermediate flush (an auto-flush
+before a query), deletes, the "commits none of its OTHER changes" part (rides on C17; here: commit() is not called).
 """
 import math, os, re
 from typing import Tuple
@@ -196,13 +209,16 @@ def _make(provider):
     e.attr = {n: getattr(E, n) for n in ATTRS}
     e.col = {n: e.attr[n].columns[0] for n in ATTRS}
     e.bit = {n: E._bits_[e.attr[n]] for n in ATTRS}
-    e.nvbit = {n: E._bits_except_volatile_[e.attr[n]] for n in ATTRS}
+    e.nvbit = {n: (0 if n == 'v' else e.bit[n]) for n in ATTRS}      # reference: the volatile attribute is never read-tracked
     return e
 
 
 def setup():
     if ENVS: return
     from pony.orm import core
+    if os.environ.get('C20_MUTANT'):              # development only (canaries); checks/c20.py and c21.py remove the variable
+        from checks import h_c20_canary
+        h_c20_canary.apply(os.environ['C20_MUTANT'])
     core.time = lambda: 0.0
     # pony interns database values through a dict (pony.utils.deduplicate, with a bare `except:`): a pure identity
     # optimisation, but the dict lookup would realise every symbolic value -> replaced by the identity function
@@ -211,7 +227,7 @@ def setup():
     ENVS['postgres'] = _make('postgres')
 
 
-def _reset(e):
+def _reset(e, keep_sql_cache=False):
     NPATH[0] += 1
     from pony.orm import core
     core.local.db2cache.clear()
@@ -224,8 +240,9 @@ def _reset(e):
     if lock is not None and lock.locked():
         try: lock.release()
         except Exception: pass
-    # statement caches keyed by (columns, operations): every explored path rebuilds its SQL from the AST
-    e.E._update_sql_cache_.clear()
+    # statement cache keyed by (columns, optimistic columns, operations): every explored path rebuilds its SQL from the AST,
+    # except in upd_nulls, whose paths share the warm cache (NULL / non-NULL shapes of the same columns must not collide)
+    if not keep_sql_cache: e.E._update_sql_cache_.clear()
 
 
 # ---------------------------------------------------------------------------------------------- SQL text
@@ -287,16 +304,24 @@ def select_columns(sql):
     return m.group(2), [c.strip().strip('"') for c in m.group(1).split(',')]
 
 
+def _exc(e):
+    """Printable form of an exception without rendering its arguments (they may hold entities or symbolic values; CrossHair's
+    `%` copies what it formats and entities refuse to be copied)."""
+    if e is None: return 'None'
+    a = e.args[0] if e.args and type(e.args[0]) is str else ''
+    return type(e).__name__ + ('(' + a[:80] + ')' if a else '')
+
+
 def _same(x, y):
     return x is y or x == y
 
 
 # ---------------------------------------------------------------------------------------------- scenario
-def _core(R, W, L, N, C, optimistic=True, for_update=False, provider='sqlite', lf=1.5, nf=2.5):
+def _core(R, W, L, N, C, optimistic=True, for_update=False, provider='sqlite', lf=1.5, nf=2.5, keep_sql_cache=False):
     from pony.orm import db_session
     from pony.orm.core import OptimisticCheckError, UnrepeatableReadError
     e = ENVS[provider]
-    _reset(e)
+    _reset(e, keep_sql_cache)
     E, G, con, col = e.E, e.G, e.con, e.col
     la, lx, lv, ln_null, ln, lg_null = L
     na, nx, nv, nn_null, nn, ng_null = N
@@ -371,7 +396,7 @@ def _core(R, W, L, N, C, optimistic=True, for_update=False, provider='sqlite', l
     Rset = [n for i, n in enumerate(ATTRS) if R[i]]
     Wset = [n for i, n in enumerate(ATTRS) if W[i]]
     if masks is None:
-        why.append('session body failed: %r' % (exc,))
+        why.append('session body failed: %s' % _exc(exc))
         LAST['why'] = why
         return ok(False)
     if masks[0] != sum(e.nvbit[n] for n in Rset): why.append('rbits %r for reads %r' % (masks[0], Rset))
@@ -380,7 +405,7 @@ def _core(R, W, L, N, C, optimistic=True, for_update=False, provider='sqlite', l
 
     if not Wset:
         if st['updates']: why.append('UPDATE without a modified attribute')
-        if exc is not None: why.append('unexpected %r' % (exc,))
+        if exc is not None: why.append('unexpected %s' % _exc(exc))
         LAST['why'] = why
         return ok(not why)
 
@@ -434,14 +459,14 @@ def _core(R, W, L, N, C, optimistic=True, for_update=False, provider='sqlite', l
     # S5
     if optimistic:
         if matched:
-            if exc is not None: why.append('update applied but the session raised %r' % (exc,))
+            if exc is not None: why.append('update applied but the session raised %s' % _exc(exc))
             if con.commits != 1: why.append('commit() called %d times' % con.commits)
         else:
-            if not isinstance(exc, (OptimisticCheckError, UnrepeatableReadError)): why.append('no row updated but the session raised %r' % (exc,))
+            if not isinstance(exc, (OptimisticCheckError, UnrepeatableReadError)): why.append('no row updated but the session raised %s' % _exc(exc))
             if con.commits != 0: why.append('commit() called after a failed optimistic check')
             if con.rollbacks < 1: why.append('no rollback() after a failed optimistic check')
     elif exc is not None and not isinstance(exc, OptimisticCheckError):
-        why.append('unexpected %r' % (exc,))
+        why.append('unexpected %s' % _exc(exc))
     LAST['why'] = why
     return ok(not why)
 
@@ -449,11 +474,11 @@ def _core(R, W, L, N, C, optimistic=True, for_update=False, provider='sqlite', l
 def _pre(R, W, L, N, C, full=False):
     """Loaded / assigned ints inside the 32-bit range of their columns (IntConverter.validate); the current row's ints are
     unbounded.  Main harnesses, quick tier: the design's row shape (v not read, n loaded NULL, g loaded non-NULL, non-NULL
-    assignments); C20_FULL=1 (thorough) frees `v is read` and `n loaded NULL or not`."""
+    assignments); C20_FULL=1 (thorough) frees `v is read`, `n loaded NULL or not` and `g loaded NULL or not`."""
     for v in (L[0], L[1], L[2], L[4], N[0], N[1], N[2], N[4]):
         if not (LO <= v <= HI): return False
     if full: return True
-    if FULL: return (not L[5]) and (not N[3]) and (not N[5])
+    if FULL: return (not N[3]) and (not N[5])
     return (not R[3]) and L[3] and (not L[5]) and (not N[3]) and (not N[5])
 
 
@@ -598,7 +623,7 @@ def upd_nulls(R: B6, W: B6, L: LT, N: NT, C: CT) -> bool:
     pre: _pre(R, W, L, N, C, True) and _only(R, 'ng') and _only(W, 'ng')
     post: _
     """
-    return _core(R, W, L, N, C)
+    return _core(R, W, L, N, C, keep_sql_cache=True)
 
 
 def upd_volatile(R: B6, W: B6, L: LT, N: NT, C: CT) -> bool:
